@@ -13,6 +13,7 @@ import (
 var monitors = map[string]func(*vk.Ctx){
 	"smoke": runSmoke,
 	"C01":   runC01,
+	"C02":   runC02,
 	"C03":   runC03,
 	"C06":   runC06,
 	"C07":   runC07,
